@@ -151,7 +151,6 @@ static UNSORTED_OPTS: &[&dyn Optimization] = &[
     &((Complex, Abs), AbsComplex),
     &((Abs, Dup, Mul), SquareAbs),
     &((Abs, Neg), NegAbs),
-    &((crate::Complex::I, Mul, Add), Complex),
     &ByToDup,
     &RowsFlipOpt,
     &InlineCustomInverse,
